@@ -10,7 +10,14 @@ Record case := mk_case {
   c_reqs : list req;             (* the endpoints requested (repeatedly, concurrently with Run) *)
   o_raced : list req;            (* endpoints implicated by the race detector *)
   o_same : bool;                 (* final simulation results equal to an unmonitored run *)
-  o_done : bool                  (* the simulation finished after the last Continue *)
+  o_done : bool;                 (* the simulation finished after the last Continue *)
+  (* the directed "held inspection" history: user pause, engine observed idle, a component/field
+     inspection held open by a client that stops reading, /api/continue sent meanwhile *)
+  c_hold : bool;
+  o_during : bool;               (* events were handled while that inspection was still in progress *)
+  o_scope : bool                 (* fact extracted from monitoring2/monitor.go: pauseForInspection keeps
+                                    engineControlMu locked from before Pause until its resume function runs,
+                                    and pauseEngine / continueEngine take the same mutex *)
 }.
 
 Definition req_eqb (a b : req) : bool :=
@@ -29,11 +36,22 @@ Definition all_reqs : list req := [RPause; RContinue; RState; RNow; RTick; RInsp
     required of a single run: whether a possible race manifests depends on the Go
     scheduler (requiring it made the check flaky on the unchanged tree, e.g. seed 2:
     parallel engine, pause+progress requests, no report in 151 requests). *)
+(** the lock scope the model relies on (requests of different HTTP goroutines are
+    serialised by engineControlMu, an inspection is one critical section) *)
+Definition model_lock_scope : bool := true.
+
 Definition check_case (c : case) : bool :=
+  Bool.eqb (o_scope c) model_lock_scope &&
+  (* held inspection: the model has the engine stopped for the whole critical section *)
+  (* (on the serial engine the detector may still report the inspection: SerialEngine.Pause gives no
+     happens-before edge from the engine's earlier handler writes to the inspector — known finding F-C40-3) *)
+  (if c_hold c
+   then negb (o_during c) && (if c_par c then match o_raced c with [] => true | _ => false end else true) && o_done c
+   else true) &&
   forallb (fun r => implb (mem_req r (o_raced c)) (mem_req r (c_reqs c) && may_race (c_par c) (c_prog c) r)) all_reqs &&
   (* when the model predicts no race the run must be undisturbed; a racing run may end in any state *)
   (existsb (may_race (c_par c) (c_prog c)) (c_reqs c) || (o_same c && o_done c)).
 
 (** the property on the observation *)
 Definition holds_on (c : case) : bool :=
-  match o_raced c with [] => true | _ => false end && o_same c && o_done c.
+  match o_raced c with [] => true | _ => false end && o_same c && o_done c && negb (o_during c).
